@@ -459,5 +459,5 @@ func runC14(c C14Case) *Result {
 }
 
 func TestC14(t *testing.T) {
-	runSpec(t, Spec[C14Case]{ID: "C14", Gen: genC14, Run: runC14})
+	runSpec(t, Spec[C14Case]{ID: "C14", Gen: genC14, Run: runC14, Pre: preScaleC14})
 }
